@@ -121,6 +121,10 @@ func vpMk_Item(shape int, tag byte) Item {
 		return &Object{}
 	case 13:
 		return IRI("")
+	case 17: // links with an id whose type is not one of the two link types of the vocabulary
+		return &Link{ID: vpMkIRI(tag + 1), Type: "Hashtag", Href: vpMkIRI(tag)}
+	case 18:
+		return &Link{ID: vpMkIRI(tag + 1), Href: vpMkIRI(tag)}
 	case 10: // a link that has an id of its own besides its target
 		return &Link{ID: vpMkIRI(tag + 1), Type: MentionType, Href: vpMkIRI(tag)}
 	default:
